@@ -34,7 +34,7 @@ fn sect_of(sec: u8) -> Section {
 fn check_rr<S: Src>(s: &mut S, it: &ResponseIterator<'_>, p: &[u8], r: &SkRec) -> Verdict {
     vassert!(it.offset() == Some(r.start), "iterator: cursor at the record's offset");
     vassert!(it.offset_next() == r.next, "iterator: next offset is the record's end");
-    let mut text = [0u8; 1024];
+    let mut text = [0u8; 300];
     let tn = spec::name_text(p, r.start, &mut text, true);
     let name = it.name();
     vassert!(vec_is(&name, &text, tn), "name(): lowercase dotted owner name");
@@ -105,7 +105,7 @@ pub fn walk<S: Src, K: Skel, const PASS: u8>(s: &mut S) -> Verdict {
         while let Some(item) = it {
             vassert!(n == 0, "question iterator: exactly one question");
             vassert!(item.offset() == Some(q.start), "question iterator: offset");
-            let mut text = [0u8; 1024];
+            let mut text = [0u8; 300];
             let tn = spec::name_text(&p, q.start, &mut text, true);
             let name = item.name();
             vassert!(vec_is(&name, &text, tn), "question name(): lowercase dotted name");
